@@ -34,19 +34,20 @@ impl Property for C12 {
         "C12"
     }
     fn rule(&self) -> String {
-        "sessions over a root r.td that includes i.td, where disk texts and editor buffers differ observably (each variant of i.td declares a differently named class, each variant of r.td uses one buffer class and the disk class, so outline and 'class not found' diagnostics reveal which text was analysed). Events: open/change of r.td or i.td with one of two buffer variants (a change of an unopened document is an open): every sequence of length <= 4 (thorough <= 5) over the 4 (document, variant) events exhaustively, each with i.td present on disk and with i.td never saved (no file on disk). Reference session model: texts = disk overlaid by the buffers of opened documents, root = last touched document. After every step the last published diagnostics of every file of the model's workspace and the documentSymbol answer of every open document in it must equal a fresh ide-level analysis over the model's texts. distinct = digest of the event sequence; non-trivial = a step at which an open included document's buffer differs from disk while the other document is (re)analysed".into()
+        "sessions over a root r.td that includes i.td, where disk texts and editor buffers differ observably (each variant of i.td declares a differently named class, each variant of r.td uses one buffer class and the disk class, so outline and 'class not found' diagnostics reveal which text was analysed). Events: open/change of r.td or i.td with one of two buffer variants (a change of an unopened document is an open), and close of either document (the disk is the truth again; checked at the next analysed step): every sequence of length <= 4 (thorough <= 5) over the 4 (document, variant) events exhaustively, each with i.td present on disk and with i.td never saved (no file on disk). Reference session model: texts = disk overlaid by the buffers of opened documents, root = last touched document. After every step the last published diagnostics of every file of the model's workspace and the documentSymbol answer of every open document in it must equal a fresh ide-level analysis over the model's texts. distinct = digest of the event sequence; non-trivial = a step at which an open included document's buffer differs from disk while the other document is (re)analysed".into()
     }
     fn assumptions(&self) -> Vec<String> {
-        vec!["the disk is never modified during a session; the model takes the last touched document as root because that is what didOpen/didChange do".into()]
+        vec!["the disk is never modified during a session; the model takes the last touched document as root because that is what didOpen/didChange do; a close triggers no analysis, so its effect is observed at the next open/change".into()]
     }
     fn families(&self, ctx: &Ctx) -> Vec<Family> {
         let maxlen = ctx.tier.pick(4usize, 5usize);
         vec![Family::new("all-sessions", 4, move |first, _r, emit| {
             for len in 1..=maxlen {
                 let mut idx = vec![0usize; len];
+                // the first event is an open (0..4); later events range over 0..6 (4, 5 = close r.td / i.td)
                 idx[0] = first as usize;
                 loop {
-                    let ev: Vec<_> = idx.iter().map(|e| json!([e / 2, e % 2])).collect();
+                    let ev: Vec<_> = idx.iter().map(|e| if *e < 4 { json!([e / 2, e % 2]) } else { json!([e - 4, 2]) }).collect();
                     if !emit(json!({"kind": "buffer-session", "events": ev})) {
                         return;
                     }
@@ -62,7 +63,7 @@ impl Property for C12 {
                             break;
                         }
                         k -= 1;
-                        if idx[k] + 1 < 4 {
+                        if idx[k] + 1 < 6 {
                             idx[k] += 1;
                             break;
                         }
@@ -94,7 +95,25 @@ impl Property for C12 {
                 verdict = Some(Verdict::Skip("malformed-case"));
                 break;
             };
-            let (doc, b) = (doc as usize % 2, b as usize % 2);
+            let (doc, b) = (doc as usize % 2, b as usize % 3);
+            if b == 2 {
+                // close: the disk is the truth again for that document; nothing is re-analysed now
+                if s.opened.contains(name(doc)) {
+                    s.close(name(doc));
+                    match (doc, no_disk_i) {
+                        (0, _) => {
+                            model.insert("r.td".into(), DISK_R.into());
+                        }
+                        (_, false) => {
+                            model.insert("i.td".into(), DISK_I.into());
+                        }
+                        (_, true) => {
+                            model.remove("i.td");
+                        }
+                    }
+                }
+                continue;
+            }
             let text = buffer_text(doc, b);
             if doc == 0 && s.opened.contains("i.td") && model.get("i.td").map(|t| t != DISK_I).unwrap_or(false) {
                 nontrivial = true;
